@@ -193,4 +193,17 @@ def r3_r4_group_mask_and_input(run, tree):
                "result is a new Dataset(): %s" % fresh, "the input dataset is returned", nontrivial=False)
 
 
-RULES = [r1_key_domain, r2_predicates, r3_r4_group_mask_and_input]
+def r_conversion(run, tree):
+    from . import array_folds as af
+    run.rule("C16.R5", "origin, radius and sizes are brought to the unit of the positions by Array.to (shared with C02/C08): scales by the unit ratio, no cast back to the source dtype", "D7 fold of Array.to", "", floor=6)
+    af.check_to_fold(run, tree)
+
+
+def r_parent_links(run, tree):
+    from . import core_folds as cf
+    run.rule("C16.R6", "every way of putting a group into a Dataset sets its parent link (the mesh positions of groups without their own are "
+             "found through group.parent)", "D7 fold of the Dataset class (shared with C20)", "", floor=4)
+    cf.check_dataset_histories(run, tree)
+
+
+RULES = [r_conversion, r_parent_links, r1_key_domain, r2_predicates, r3_r4_group_mask_and_input]
